@@ -187,4 +187,8 @@ LIMITATIONS = {
     "r-process-r4-R1": "the terminator search of process written as iter().zip(read_offset..).find_map(|(&b, i)| (b == b'\\n').then_some(i)) - not one of the recognised search idioms",
     "r-process-r4-R4": "the repeated terminator search of process fused into one for-enumerate pass with `continue` - a different loop structure than the nested search the buffer-discipline rules read",
     "r-queue-tree-r4-R2": "Node::child rewritten as a slice-pattern walk over a loop-carried remainder with a hand-written byte-wise case-insensitive comparison",
+    # feature commits (round r6) that replace a recognised construct by open-coded byte handling
+    "r-parser-leaves-r6-R1": "the length field of a block decoded by an open-coded loop over `i2.iter().take(digits)` with checked arithmetic on `byte - b'0'` instead of from_utf8 + from_str_radix: an explicit byte loop inside a leaf parser (direct inspection, a loop without a consuming parser, arithmetic under an is_ascii_digit guard)",
+    "r-parser-leaves-r6-R2": "whitespace() examines `input.first()` itself and then applies take_while to `input[1..]`: an open-coded satisfy in front of the combinator, whose consumed language the skeleton does not compute",
+    "r-process-r6-R3": "process skips run() for a line that consists of white space only (`data[..len-1].iter().all(is_whitespace)`): showing that run would have been a no-op on such a line is a fact about the parser that the buffer-discipline rules do not have (they require one run per terminator)",
 }
